@@ -1,6 +1,7 @@
 // Native replay for NumTools::logsum and StatTools::computeFdr counterexamples on the real library code.
 // SOURCES: Bpp/Exceptions.cpp Bpp/Text/TextTools.cpp Bpp/Text/StringTokenizer.cpp Bpp/Numeric/Stat/StatTools.cpp
 #include <Bpp/Numeric/NumTools.h>
+#include <Bpp/Numeric/VectorTools.h>
 #include <Bpp/Numeric/Stat/StatTools.h>
 #include "adapters/args.h"
 #include <cmath>
@@ -18,6 +19,12 @@ int main(int argc, char** argv) {
     vector<double> f = StatTools::computeFdr(p);
     for (size_t k = 0; k < n; ++k) { size_t rank = 1; for (size_t j = 0; j < n; ++j) if (p[j] < p[k]) rank++;
       double e = p[k] * double(n) / double(rank); cout << "p=" << p[k] << " rank=" << rank << " fdr=" << f[k] << " expected=" << e << endl; CHECK_POST(f[k] == e); }
+  } else if (fn.find("b_values") == 0 && a.has("in_by")) {
+    /* sequence generation clause of the value harness (the other clauses of that harness have no native check) */
+    int f = a.i32("in_f"), t = a.i32("in_t"), by = a.i32("in_by"); if (by < 1) return 3;
+    vector<int> r = VectorTools::seq<int>(f, t, by); cout << "seq(" << f << ", " << t << ", " << by << ") ="; for (int x : r) cout << " " << x; cout << endl;
+    size_t len = size_t(std::abs(f - t) / by) + 1; CHECK_POST(r.size() == len);
+    for (size_t k = 0; k < r.size(); ++k) CHECK_POST(r[k] == (f <= t ? f + int(k) * by : f - int(k) * by));
   } else { cout << "no native check for " << fn << endl; return 3; }
   return verif_failed;
 }
